@@ -317,6 +317,13 @@ impl From<Status> for ApiErr {
 }
 
 pub fn api_register(api: &Arc<InternalAPI>, user_id: Vec<u8>) -> Result<common_msgs::RegisterResponse, ApiErr> {
+    if let Some(m) = crate::http::take_armed() {
+        return crate::http::http_call(
+            crate::http::Endpoint::Register,
+            serde_json::json!({ "user_id": hex::encode(&user_id) }),
+            m,
+        );
+    }
     block_on(PublicTowerServices::register(
         api,
         Request::new(common_msgs::RegisterRequest { user_id }),
@@ -332,6 +339,16 @@ pub fn api_add(
     tsd: u32,
     signature: String,
 ) -> Result<common_msgs::AddAppointmentResponse, ApiErr> {
+    if let Some(m) = crate::http::take_armed() {
+        return crate::http::http_call(
+            crate::http::Endpoint::AddAppointment,
+            serde_json::json!({
+                "appointment": { "locator": hex::encode(&locator), "encrypted_blob": hex::encode(&blob), "to_self_delay": tsd },
+                "signature": signature,
+            }),
+            m,
+        );
+    }
     block_on(PublicTowerServices::add_appointment(
         api,
         Request::new(common_msgs::AddAppointmentRequest {
@@ -352,6 +369,13 @@ pub fn api_get(
     locator: Vec<u8>,
     signature: String,
 ) -> Result<common_msgs::GetAppointmentResponse, ApiErr> {
+    if let Some(m) = crate::http::take_armed() {
+        return crate::http::http_call(
+            crate::http::Endpoint::GetAppointment,
+            serde_json::json!({ "locator": hex::encode(&locator), "signature": signature }),
+            m,
+        );
+    }
     block_on(PublicTowerServices::get_appointment(
         api,
         Request::new(common_msgs::GetAppointmentRequest { locator, signature }),
@@ -364,6 +388,13 @@ pub fn api_subinfo(
     api: &Arc<InternalAPI>,
     signature: String,
 ) -> Result<common_msgs::GetSubscriptionInfoResponse, ApiErr> {
+    if let Some(m) = crate::http::take_armed() {
+        return crate::http::http_call(
+            crate::http::Endpoint::GetSubscriptionInfo,
+            serde_json::json!({ "signature": signature }),
+            m,
+        );
+    }
     block_on(PublicTowerServices::get_subscription_info(
         api,
         Request::new(common_msgs::GetSubscriptionInfoRequest { signature }),
